@@ -191,7 +191,13 @@ def vector_src(ns, nl, npar, ni2c, other, same_name=False, lcd_order="parallel-f
     for k in range(ni2c):
         lines.append(f"    li{k}.clear()")
     lines.append("    pass")
-    return "\n".join(lines) + "\n"
+    text = "\n".join(lines) + "\n"
+    if lcd_order == "blank-before-parenthesis":
+        # `Servo (9)`, `LCD (rs=...)`: a call written with a blank in front of its parenthesis is the same call
+        text = text.replace("Servo(", "Servo (").replace("LCD(", "LCD (")
+    elif lcd_order == "tab-before-parenthesis":
+        text = text.replace("Servo(", "Servo\t(").replace("LCD(", "LCD  (")
+    return text
 
 
 def extra_obligations(mods, tier, seed):
@@ -233,6 +239,8 @@ def extra_obligations(mods, tier, seed):
     # the spelling of the main-loop header and comment lines before the declarations at the top of the loop body must not matter either
     space += [(0, 0, npar, ni2c, other, "name-rebound-to-servo") for npar, ni2c, other in itertools.product((0, 1), (0, 1), (False, True))]
     space += [(ns, nl, npar, ni2c, other, "servo-default-pin") for ns, nl, npar, ni2c, other in itertools.product((0, 1), (0, 1), (0, 1), (0, 1), (False, True)) if ns + nl]
+    space += [(ns, nl, npar, ni2c, other, order) for order in ("blank-before-parenthesis", "tab-before-parenthesis")
+              for ns, nl, npar, ni2c, other in itertools.product((0, 1), (0, 1), (0, 1), (0, 1), (False, True))]
     space += [(ns, nl, npar, ni2c, other, order) for order in ("header-comment", "header-paren", "header-blank", "comment-before-loop-declarations")
               for ns, nl, npar, ni2c, other in itertools.product((0, 1), (1, 2), (0, 1), (0, 1), (False, True))]
     space += [(ns, nl, npar, ni2c, other, order) for order in ("i2c-first", "interleaved", "lcd-before-servo", "with-rw-pin")
